@@ -125,6 +125,9 @@ func selftest(verifDir, tier string, seed int64) int {
 	for i := range engines {
 		eng := &engines[i]
 		props := detProps[eng.Name]
+		if only := os.Getenv("VERIF_SELFTEST_ONLY"); only != "" && only != eng.Name {
+			continue // diagnostics: restrict the determinism self-test to one engine
+		}
 		if len(props) == 0 {
 			continue
 		}
@@ -155,6 +158,17 @@ func selftest(verifDir, tier string, seed int64) int {
 					return 2
 				}
 				sweeps[si] = got
+			}
+			// test of the self-test: VERIF_SELFTEST_PERTURB=<id>:<run> falsifies the hash one sweep
+			// recorded for a run, which must come out as one transient divergence (the run itself
+			// is deterministic); <id>:<run>:all falsifies it in every sweep but the first (no majority).
+			if f := strings.Split(os.Getenv("VERIF_SELFTEST_PERTURB"), ":"); len(f) >= 2 && f[0] == id {
+				var k int
+				fmt.Sscanf(f[1], "%d", &k)
+				sweeps[1][k] ^= 0x5555
+				if len(f) > 2 {
+					sweeps[2][k] ^= 0x3333
+				}
 			}
 			var divergent []int
 			for k := 0; k < n; k++ {
